@@ -37,6 +37,7 @@
 EXTENDS Integers, Sequences, FiniteSets, TLC
 
 CONSTANTS TypeOf(_),          \* store -> "mem" | "es"
+          Active,             \* the stores that are used at all (a configuration may look at one store only)
           HasTrackParams(_),  \* store -> BOOLEAN: is track/params configured (non-empty) for that store
           Keys,               \* meta-info keys used by add_meta_info and per-record meta_data
           TagKey,             \* key under which the user tag of race/user.tags appears ("tag_u")
@@ -274,7 +275,7 @@ Init == /\ store = [s \in Stores |-> NewStore]
         /\ clock = 0 /\ hist = InitHist /\ act = [name |-> "Init"]
 
 Open(s, how, c, create, w) ==
-    /\ IdleNow /\ store[s].phase \in {"new", "closed"} /\ hist.nOpens < MaxOpens
+    /\ IdleNow /\ s \in Active /\ store[s].phase \in {"new", "closed"} /\ hist.nOpens < MaxOpens
     /\ how = "ctx" => (store[Other(s)].phase # "new" /\ c = store[Other(s)].ctx)        \* open(ctx=other.open_context)
     /\ (TypeOf(s) = "mem" => create)
     /\ Becomes(OpenStep(Sys, s, c, create, w))
@@ -337,7 +338,8 @@ RefreshReq(o) ==
     /\ act' = [name |-> "RefreshReq", o |-> o]
 
 Next ==
-    \/ \E s \in Stores, how \in {"direct", "ctx"}, c \in Ctxs, create \in BOOLEAN, w \in WorldsOf(TypeOf(s)) : Open(s, how, c, create, w)
+    \/ \E s \in Stores, how \in {"direct", "ctx"}, c \in Ctxs, create \in BOOLEAN :
+          \E w \in WorldsOf(TypeOf(s)) : Open(s, how, c, create, w)
     \/ \E s \in Stores, scope \in {"cluster", "node"}, n \in Nodes, k \in Keys, v \in Vals :
           (scope = "cluster" => n = CHOOSE x \in Nodes : TRUE) /\ AddMeta(s, scope, n, k, v)
     \/ \E s \in Stores, a \in PutArgs : Put(s, a)
@@ -370,7 +372,7 @@ NoLoss(S, h) ==
     \A id \in AllIds(h) : SumBuf(S, Stores, id) + SumWire(S.wire, id) + CountId(S.idx, id) + CountId(h.dropped, id) >= 1
 (* stronger, for Elasticsearch stores: what was handed to them is in a buffer or in the index *)
 EsNoLoss(S, h) ==
-    \A id \in AllIds(h) : SumBuf(S, EsStores, id) + CountId(S.idx, id) + CountId(h.dropped, id) >= EsAdded(h, id)
+    ~h.extNoClear => \A id \in AllIds(h) : SumBuf(S, EsStores, id) + CountId(S.idx, id) + CountId(h.dropped, id) >= EsAdded(h, id)
 (* a buffer is only ever dropped (by open() re-initialising it) after an error has surfaced *)
 DropOnlyAfterError(S, h) == h.dropped # <<>> => h.raised
 (* nothing is stored twice: the index holds a record at most as often as it was handed to an Elasticsearch store *)
